@@ -427,17 +427,21 @@ func writeSample(path string, lines []string, outs [][][]int64, n int) {
 	var sb strings.Builder
 	sb.WriteString("(* GENERATED: kernel-path sample of the correspondence run.  Each case pairs a scenario\n   (integer encoding) with what the extracted binary printed for it; Coq re-evaluates the\n   interpreter with vm_compute and compares. *)\n")
 	sb.WriteString("From Coq Require Import List ZArith Bool.\nFrom Qeep Require Import Corr.Codec Corr.Sample.\nImport ListNotations.\nOpen Scope Z_scope.\n")
-	sb.WriteString("Definition cases : list (list Z * list (list Z)) := [\n")
 	cnt := 0
 	step := 1
 	if len(lines) > n {
 		step = len(lines) / n
 	}
 	for i := 0; i < len(lines) && cnt < n; i += step {
-		if cnt > 0 {
-			sb.WriteString(";\n")
+		// keep the kernel-path sample to scenarios of moderate size (the parser's stack is finite)
+		sz := len(lines[i])
+		for _, ob := range outs[i] {
+			sz += 4 * len(ob)
 		}
-		sb.WriteString("  ([" + strings.Join(strings.Fields(lines[i]), ";") + "],\n   [")
+		if sz > 60000 {
+			continue
+		}
+		sb.WriteString(fmt.Sprintf("Definition case%d : list Z * list (list Z) :=\n  ([", cnt) + strings.Join(strings.Fields(lines[i]), ";") + "],\n   [")
 		for j, ob := range outs[i] {
 			if j > 0 {
 				sb.WriteString(";")
@@ -448,11 +452,14 @@ func writeSample(path string, lines []string, outs [][][]int64, n int) {
 			}
 			sb.WriteString("[" + strings.Join(parts, ";") + "]")
 		}
-		sb.WriteString("])")
+		sb.WriteString("]).\n")
 		cnt++
 	}
-	sb.WriteString("].\n")
-	sb.WriteString("Definition verdicts := Eval vm_compute in check_cases cases.\nPrint verdicts.\n")
+	names := make([]string, cnt)
+	for i := range names {
+		names[i] = fmt.Sprintf("case%d", i)
+	}
+	sb.WriteString("Definition verdicts := Eval vm_compute in check_cases [" + strings.Join(names, "; ") + "].\nPrint verdicts.\n")
 	os.WriteFile(path, []byte(sb.String()), 0o644)
 }
 
